@@ -225,6 +225,18 @@ def body_factory(ctx):
                     want = 1.0 / np.asarray(data.rv_err.value) ** 2
                 if not np.allclose(np.asarray(iv.to_value(1 / ref["eu"] ** 2)), want, rtol=1e-12, atol=0):
                     raise Violation("ivar is not 1/sigma^2", got=np.asarray(iv.value)[:5], want=want[:5])
+        # ---- the same object after its uncertainties were changed through the public attribute (error bars inflated before
+        # a second fit): derived quantities must follow
+        if finite and len(keep) and not case["cov"] and case.get("err_scale", 1.0) >= 1e-100:
+            old_err = data.rv_err.copy()
+            with ctx.sut("ivar after rv_err was re-assigned"):
+                data.rv_err = old_err * 3.0
+                iv2 = data.ivar
+            want2 = 1.0 / np.asarray((old_err * 3.0).value) ** 2
+            if not np.allclose(np.asarray(iv2.to_value(1 / ref["eu"] ** 2)), want2, rtol=1e-12, atol=0):
+                raise Violation("ivar does not follow rv_err after the uncertainties were changed on the same object",
+                                got=np.asarray(iv2.value)[:5], want=want2[:5])
+            data.rv_err = old_err
         # reference epoch
         if case["t_ref"] == "false":
             if data.t_ref is not None or data._t_ref_bmjd != 0.0:
